@@ -22,7 +22,7 @@ m = {
     "engines": [
         {"name": "kani", "path": "kani/", "serves_properties": sorted(c["property_id"] for c in CHECKS),
          "kind_free_text": "Kani 0.68 proof harnesses + function contracts compiled inside the real crate (cfg(kani)); CBMC 6.11 back end"},
-        {"name": "verus", "path": "verus/", "serves_properties": ["C02", "C12", "C16"],
+        {"name": "verus", "path": "verus/", "serves_properties": sorted(set(u["property"] for u in __import__("verus.units", fromlist=["UNITS"]).UNITS.values()) & set(c["property_id"] for c in CHECKS)),
          "kind_free_text": "Verus 0.2026.09.13 on functions extracted verbatim from /repo on every run (lib/extract.py); Z3 back end"},
     ],
     "checks": CHECKS,
